@@ -8,6 +8,7 @@ import (
 	"io"
 	stdlog "log"
 	"os"
+	"runtime"
 	"strings"
 	"time"
 
@@ -37,7 +38,7 @@ type dMsg struct {
 	delivered int
 	pos       int
 	delivTick int   // tick of the (first) delivery
-	invOwn    int   // the calling task's own step count at invocation
+	invOwn    int   // the calling task's count of solo steps (zsim.Task.Solo) at invocation
 	invNow    int64 // simulated time at invocation
 	task      *zsim.Task
 }
@@ -96,7 +97,11 @@ type dRun struct {
 	maxOut        int
 	closeInv      int
 	closeRet      int
-	firstCloseInv int // tick of the first Close call by anyone
+	firstCloseInv int  // tick of the first Close call by anyone
+	nilAlerter    bool // NewWriter was given a nil alerter: drops are not reported to anybody
+	consumerGone  bool // a user callback ended the consumer goroutine (runtime.Goexit, as t.FailNow does)
+	nestedClose   bool // closing the wrapped writer closes the neighbour diode.Writer too
+	nbClose       func()
 	fatalMsg      *dMsg
 	phaseBDone    bool
 	settled       bool
@@ -128,7 +133,7 @@ func (t *dTap) Write(p []byte) (int, error) {
 	r.byData[string(m.data)] = m
 	m.inv = r.t()
 	m.task = zsim.Cur()
-	m.invOwn = m.task.Steps
+	m.invOwn = m.task.Solo
 	m.invNow = zsim.S.Now()
 	r.started++
 	if o := r.started - r.sinkCalls; o > r.maxOut {
@@ -230,6 +235,15 @@ func (k *dSink) Write(p []byte) (int, error) {
 		zsim.Block("sink stalled forever", func() bool { return false })
 	}
 	switch r.sinkKind {
+	case 6:
+		if idx == r.stallAt {
+			// the user's writer ends the goroutine it is called on (testing.T.FailNow does):
+			// the consumer is gone, Close must still return
+			zsim.Fault("sink_goexit")
+			r.consumerGone = true
+			r.sinkIn--
+			runtime.Goexit()
+		}
 	case 1:
 		zsim.Fault("sink_slow")
 		zsim.Sleep(r.sinkDelay)
@@ -305,8 +319,19 @@ func (k *dSink) Close() error {
 		k.r.sinkClosed = k.r.t()
 	}
 	zsim.Log("wrapped writer closed")
+	if k.r.nestedClose && k.r.nbClose != nil {
+		// the destination owns another diode.Writer (a chain of asynchronous stages) and
+		// closes it in turn
+		zsim.Probe("nested_close")
+		k.r.nbClose()
+	}
 	return nil
 }
+
+// dFailWriter refuses every write.
+type dFailWriter struct{}
+
+func (dFailWriter) Write(p []byte) (int, error) { return 0, errors.New("first destination refuses") }
 
 type collisionCounter struct{ r *dRun }
 
@@ -389,6 +414,14 @@ func (r *dRun) producer(p int, lg zerolog.Logger, fatal bool) func() {
 			case 2:
 				zerolog.SetGlobalLevel(zerolog.Disabled)
 				zsim.Probe("fatal_filtered")
+			case 3:
+				// the fatal event goes through a fan-out whose first destination fails, and the
+				// ErrorHandler logs through another logger (the pooled event is in use again
+				// before Fatal's close-and-exit step runs)
+				zsim.Probe("fatal_with_logging_error_handler")
+				other := zerolog.New(io.Discard)
+				zerolog.ErrorHandler = func(err error) { other.Info().Err(err).Msg("write failed") }
+				flg = zerolog.New(zerolog.MultiLevelWriter(dFailWriter{}, r.tap))
 			}
 			flg.Fatal().Str("m", m.id).Msg("fatal")
 			zsim.Fail("harness", "Fatal().Msg returned")
@@ -418,7 +451,18 @@ func (r *dRun) owed(m *dMsg) bool {
 	return r.firstCloseInv == 0 || m.ret < r.firstCloseInv
 }
 
+// lossBlind: runs in which "delivered or reported" cannot be observed or cannot hold by
+// the user's own doing: there is no alerter to report to and the ring was lapped, or a
+// callback of the user killed the consumer goroutine. What remains checked there: Writes
+// and Close return, nothing is corrupted or duplicated, nothing panics.
+func (r *dRun) lossBlind() bool {
+	return (r.nilAlerter && r.maxOut > r.ring) || r.consumerGone
+}
+
 func (r *dRun) missing() (n int, ids []string) {
+	if r.lossBlind() {
+		return 0, nil
+	}
 	for _, m := range r.msgs {
 		if r.owed(m) && !r.deliveredInTime(m) {
 			n++
@@ -474,7 +518,7 @@ func (r *dRun) config() {
 	}
 	r.scenario = c.Weighted(w...)
 	r.reentrant = c.Chance(1, 6)
-	r.sinkKind = c.Weighted(8, 3, 3, 1, 1, 1)
+	r.sinkKind = c.Weighted(16, 6, 6, 2, 2, 2, 1)
 	r.errKind = c.Intn(len(sinkErrors))
 	r.twoClosers = c.Chance(1, 4)
 	r.sinkDelay = []time.Duration{time.Microsecond, 100 * time.Microsecond, 5 * time.Millisecond}[c.Intn(3)]
@@ -482,7 +526,7 @@ func (r *dRun) config() {
 	r.stallFor = []time.Duration{50 * time.Millisecond, time.Second}[c.Intn(2)]
 	r.gap = c.Weighted(5, 3, 2)
 	r.fatalWait = c.Weighted(1, 2) == 1
-	r.fatalFilt = c.Weighted(4, 1, 1)
+	r.fatalFilt = c.Weighted(4, 1, 1, 1)
 	r.skipIdle = r.prop != "C12" && c.Chance(1, 2)
 	if r.scenario == scFatal {
 		r.viaLogger = true
@@ -510,6 +554,8 @@ func (diodeWorld) Run(prop string, ch *zsim.Choices, trace bool) *RunResult {
 	stdlog.SetOutput(collisionCounter{r})
 	defer stdlog.SetOutput(os.Stderr)
 	defer zerolog.SetGlobalLevel(zerolog.TraceLevel)
+	oldEH := zerolog.ErrorHandler
+	defer func() { zerolog.ErrorHandler = oldEH }()
 	var s *zsim.Sim
 	main := func() {
 		s = zsim.S
@@ -538,6 +584,12 @@ func (diodeWorld) Run(prop string, ch *zsim.Choices, trace bool) *RunResult {
 				r.directWrite(m, 0)
 			}
 		}
+		if r.scenario != scStallForever && !r.reentrant && ch.Chance(1, 12) {
+			// no alerter: the user does not want to hear about drops
+			r.nilAlerter = true
+			alerter = nil
+			zsim.Probe("nil_alerter")
+		}
 		r.dw = diode.NewWriter(sink, r.ring, r.interval, alerter)
 		lg := zerolog.New(r.tap)
 		var nbTask *zsim.Task
@@ -547,6 +599,8 @@ func (diodeWorld) Run(prop string, ch *zsim.Choices, trace bool) *RunResult {
 			r.nbWritten, r.nbSeen = map[string]bool{}, map[string]bool{}
 			nbw = diode.NewWriter(nbSink{r}, 4, r.interval, func(int) {})
 			zsim.Probe("neighbour_writer")
+			r.nestedClose = ch.Chance(1, 3)
+			r.nbClose = func() { nbw.Close() }
 			nbTask = zsim.Spawn("neighbour", func() {
 				for k := 0; k < 4; k++ {
 					msg := fmt.Sprintf("nb.%d|%s", k, strings.Repeat("n", k*150))
@@ -659,16 +713,18 @@ func (r *dRun) post(s *zsim.Sim) *zsim.Violation {
 	if s.Truncated {
 		// the step / simulated-time cap was hit. Hitting a cap is inconclusive in general
 		// (a step-hungry but correct implementation, or a task starved by an unfair
-		// schedule, must not be blamed), except for two sound signatures: the calling task
-		// itself executed thousands of steps inside one Write (it is busy-waiting), or tens
-		// of simulated seconds passed with the call in flight (the clock only advances when
+		// schedule, must not be blamed: a spin lock between producers whose holder the
+		// schedule happens not to run is correct code), except for two sound signatures: the
+		// calling task took thousands of steps inside one Write *while no other task could
+		// run* (what it spins for can only come from a blocked or sleeping party: the consumer
+		// inside the wrapped writer), or tens of simulated seconds passed with the call in flight (the clock only advances when
 		// nothing is runnable, so the caller was asleep or blocked all that time, in a world
 		// whose longest legitimate delay is about one second).
 		const simBudget = int64(30 * time.Second)
 		if r.on("C10") {
 			for _, m := range r.msgs {
-				if m.inv >= 0 && m.ret < 0 && (m.task.Steps-m.invOwn > 3000 || s.Now()-m.invNow > simBudget) {
-					return viol("C10.write_blocked", "Write(%s) has not returned after %d steps of its own goroutine and %v of simulated time (busy-waiting or sleeping for the consumer?); scenario %s", m.id, m.task.Steps-m.invOwn, time.Duration(s.Now()-m.invNow), scNames[r.scenario])
+				if m.inv >= 0 && m.ret < 0 && (m.task.Solo-m.invOwn > 3000 || s.Now()-m.invNow > simBudget) {
+					return viol("C10.write_blocked", "Write(%s) has not returned after %d steps that its goroutine took while no other goroutine could run, and %v of simulated time (busy-waiting or sleeping for the consumer?); scenario %s", m.id, m.task.Solo-m.invOwn, time.Duration(s.Now()-m.invNow), scNames[r.scenario])
 				}
 			}
 		}
@@ -741,6 +797,9 @@ func (r *dRun) post(s *zsim.Sim) *zsim.Violation {
 				}
 			}
 			for _, T := range r.closeRets {
+				if r.lossBlind() {
+					break
+				}
 				miss, al := 0, 0
 				var mids []string
 				for _, m := range r.msgs {
@@ -770,7 +829,7 @@ func (r *dRun) post(s *zsim.Sim) *zsim.Violation {
 			}
 			// (with Writes made after Close was called the alerts may also cover those: no
 			// exact count then)
-			if r.collisions == 0 && r.lateWrites() == 0 && inTime+r.alertSum != r.written() {
+			if r.collisions == 0 && r.lateWrites() == 0 && !r.lossBlind() && inTime+r.alertSum != r.written() {
 				return viol("C11.count_mismatch", "no retry happened but delivered before Close returned(%d)+reported(%d) != written(%d)", inTime, r.alertSum, r.written())
 			}
 			if r.maxOut <= r.ring && (r.alertSum != 0 || n != 0) {
@@ -803,8 +862,8 @@ func (r *dRun) post(s *zsim.Sim) *zsim.Violation {
 					ids = append(ids, m.id)
 				}
 			}
-			if miss > r.alertSum {
-				return viol("C11.fatal_loss", "process exited through Fatal (event filtered: %v, writer closed: %v) with %d message(s) %v neither delivered nor reported (alerts=%d)", r.fatalFilt != 0, r.closeInv != 0, miss, ids, r.alertSum)
+			if miss > r.alertSum && !r.lossBlind() {
+				return viol("C11.fatal_loss", "process exited through Fatal (event filtered: %v, writer closed: %v) with %d message(s) %v neither delivered nor reported (alerts=%d)", r.fatalFilt == 1 || r.fatalFilt == 2, r.closeInv != 0, miss, ids, r.alertSum)
 			}
 		}
 	}
